@@ -204,8 +204,8 @@ func vc12Budget(in *c12h.Input) uint64 { return uint64(16*len(in.Data)) + 256<<1
 
 func TestVerif_C12(t *testing.T) {
 	c12h.Run(t, &c12h.Part{
-		Name: "manifest",
-		Rule: "gsfa manifest: mutated valid manifest files (version, meta count, key/value length bytes, truncation at every byte, extension, random edits, junk) written to a file and opened with NewManifest, then ReadAll / ContentSizeBytes / Meta / Version / Close: no panic, allocation <= 16*len+256KiB, no hang",
+		Name:  "manifest",
+		Rule:  "gsfa manifest: mutated valid manifest files (version, meta count, key/value length bytes, truncation at every byte, extension, random edits, junk) written to a file and opened with NewManifest, then ReadAll / ContentSizeBytes / Meta / Version / Close: no panic, allocation <= 16*len+256KiB, no hang",
 		Seeds: vc12Seeds, Gen: vc12Gen, Exec: vc12Exec, Budget: vc12Budget,
 	})
 }
